@@ -229,6 +229,13 @@ func init() {
 		sch.preempt = args[1].(bool)
 		return nil
 	}
+	// vScheduleBase(b): the order that choice 0 of the explored policy follows: 0 = lowest-numbered
+	// runnable goroutine first, 1 = highest-numbered (most recently started) first
+	intrinsics["vScheduleBase"] = func(fr *frame, args []value) value {
+		threadsStart()
+		sch.base = int(asInt64(args[0]))
+		return nil
+	}
 	intrinsics["vYield"] = func(fr *frame, args []value) value {
 		if sch != nil {
 			sch.yield()
